@@ -188,7 +188,8 @@ func (m *vxC01Monitor) answer(tok string, asError bool) bool {
 }
 
 // answerMode: 0 the token's row, 1 an ERROR frame naming the token, 2 the token's row in a well-formed
-// frame stamped with another protocol version of the same header layout (4<->3, 5->4, 2<->1).
+// frame stamped with another protocol version of the same header layout (4<->3, 5->4, 2<->1), 3 the token's row in
+// a frame whose body cannot be decoded (compression flag without negotiated compression).
 func (m *vxC01Monitor) answerMode(tok string, mode int) bool {
 	asError := mode == 1
 	m.mu.Lock()
@@ -206,6 +207,17 @@ func (m *vxC01Monitor) answerMode(tok string, mode int) bool {
 	}
 	rows := vnode.RowsResponse([]cqlspec.Column{{Keyspace: "ks", Table: "t", Name: "tok", Type: cqlspec.Scalar(cqlspec.Varchar)}},
 		[][]cqlspec.Value{{cqlspec.BytesValue([]byte(tok))}})
+	if mode == 3 {
+		// the token's row in a frame whose header claims a compressed body although no compression was negotiated
+		// (or, on a compressing connection, a body that is not a block of the algorithm): the body cannot be decoded
+		r := *rows
+		r.Stream, r.Version = h.rc.Req.Header.Stream, h.rc.Req.Header.Version
+		if b, err := r.Frame(nil); err == nil && len(b) > 1 {
+			b[1] |= cqlspec.FlagCompress
+			h.rc.Conn.SendRaw(b)
+		}
+		return true
+	}
 	if mode == 2 {
 		r := *rows
 		r.Stream = h.rc.Req.Header.Stream
